@@ -868,12 +868,17 @@ def closed_world(chk, pid, names, ncase=None):
                     # a due time already in the PAST: the virtual-time schedulers sort the operator's timer BEFORE
                     # source notifications still pending at the current instant, the simulator (source first at equal
                     # instants) after them -- the statement fixes neither; keep one source event per instant
+                    # (the LAST one: the terminal notification stays, so a periodic operator still stops)
                     seen_t, uniq = set(), []
-                    for e in evs:
+                    for e in reversed(evs):
                         if e[0] not in seen_t:
                             uniq.append(e)
                             seen_t.add(e[0])
-                    evs = uniq
+                    evs = uniq[::-1]
+                if inst.get("must_terminate") and not any(e[1] == 0 and e[2][0] in ("E", "C") for e in evs):
+                    # the terminal fell on the subscription instant and was filtered out: a periodic operator
+                    # would keep the virtual-time scheduler running forever
+                    evs.append((max([t0] + [e[0] for e in evs]) + 5, 0, ("C",)))
                 # subjects do not forward anything after their terminal: keep conforming sequences
                 out = run_real_scheduler(kind, inst, evs, t0)
                 n += 1
